@@ -45,8 +45,8 @@ Definition append_prim (st : settings) (dst : bytes) (p : prim) : bytes :=
   | PBytes s => AppendBytes dst s
   | PHex s => AppendHex dst s
   | PStrs l => AppendStrings dst l
-  | PStringer o => AppendStringer dst o (s_nil_iface st)
-  | PStringers l => AppendStringers dst l (s_nil_iface st)
+  | PStringer o => AppendStringer dst o nil_stringer_iface
+  | PStringers l => AppendStringers dst l nil_stringer_iface
   | PBool b => AppendBool dst b
   | PBools l => AppendBools dst l
   | PInt z => AppendInt dst z
